@@ -198,15 +198,23 @@ func oracleC11(c *SCase) *ev.Failure {
 		if brt, err = rt.marshal(twin); err != nil {
 			return nil // the owning runtime cannot marshal this value (e.g. missing required field): nothing to compare
 		}
-		for _, dirty := range []bool{false, true} {
+		for _, how := range []struct {
+			dirty bool
+			codec bool
+		}{{false, false}, {true, false}, {false, true}, {true, true}} {
+			dirty := how.dirty
 			dst, _, _ := c.newOf(nil)
 			kind := "runtime-bytes-decode-differently"
 			if dirty {
 				dst, _, _ = c.newOf(c.Other)
 				kind = "unmarshal-merges-into-populated-destination"
 			}
-			if err := csproto.Unmarshal(brt, dst); err != nil {
-				return ev.Failf(shimSig("unmarshal-error", c), "csproto.Unmarshal of %s's bytes %.60x: %v", rt.name, brt, err)
+			call, name := csproto.Unmarshal, "csproto.Unmarshal"
+			if how.codec { // the gRPC codec is interchangeable with the runtime's Unmarshal as well (also for empty payloads)
+				call, name = csproto.GrpcCodec{}.Unmarshal, "GrpcCodec.Unmarshal"
+			}
+			if err := call(brt, dst); err != nil {
+				return ev.Failf(shimSig("unmarshal-error", c), "%s of %s's bytes %.60x: %v", name, rt.name, brt, err)
 			}
 			// what does the owning runtime produce for the same call?
 			want, _, _ := c.newOf(nil)
@@ -217,7 +225,7 @@ func oracleC11(c *SCase) *ev.Failure {
 				return nil
 			}
 			if !sameContent(c, rt, dst, want) {
-				return ev.Failf(shimSig(kind+"/"+flavour, c), "csproto.Unmarshal(%.60x) into a %s destination gives %v, %s's Unmarshal gives %v", brt, map[bool]string{false: "fresh", true: "populated"}[dirty], dst, rt.name, want)
+				return ev.Failf(shimSig(kind+"/"+flavour, c), "%s(%.60x) into a %s destination gives %v, %s's Unmarshal gives %v", name, brt, map[bool]string{false: "fresh", true: "populated"}[dirty], dst, rt.name, want)
 			}
 		}
 		return nil
